@@ -1835,33 +1835,62 @@ def deep_digest():
     return h.hexdigest()
 
 
+def shared_tables():
+    import pyubx2.ubxtypes_core as c, pyubx2.ubxtypes_get as g, pyubx2.ubxtypes_set as s_, pyubx2.ubxtypes_poll as p, pyubx2.ubxvariants as v
+    objs = [g.UBX_PAYLOADS_GET, s_.UBX_PAYLOADS_SET, p.UBX_PAYLOADS_POLL, c.UBX_MSGIDS, c.UBX_CLASSES, c.ATTTYPE,
+            ubc.UBX_CONFIG_DATABASE, ubc.UBX_CONFIG_STORSIZE, v.VARIANTS] + list(v.VARIANTS.values())
+    return objs
+
+
 def static_global_writes():
-    """AST scan: stores into module-level objects from inside functions of the control modules"""
+    """AST scan of the control modules for code that would break the property where it runs: a store into (or a mutating
+    method call on, or a rebinding of) one of the *shared definition / configuration tables* from inside a function, and
+    `print`. A store into any other module-level object (a private memo cache of a pure function, a counter) is not a
+    finding: it cannot change the tables, and whether it changes results is what the history / concurrency probes decide."""
     import ast
     import pyubx2.ubxmessage as um, pyubx2.ubxhelpers as uh_, pyubx2.ubxvariants as uv, pyubx2.ubxreader as ur, pyubx2.socket_wrapper as sw
     hits = []
+    tables = shared_tables()
     MUT = {"append", "extend", "insert", "pop", "remove", "clear", "update", "setdefault", "popitem", "sort", "reverse", "add", "discard", "__setitem__"}
+
+    def is_shared(mod, e):
+        """does some prefix `name`, `name.attr`, … of the target expression denote a shared table (by identity)?"""
+        chain = []
+        while isinstance(e, (ast.Subscript, ast.Attribute)):
+            chain.append(e)
+            e = e.value
+        if not isinstance(e, ast.Name) or not hasattr(mod, e.id):
+            return None
+        obj = getattr(mod, e.id)
+        name = e.id
+        if any(obj is t for t in tables):
+            return name
+        for node in reversed(chain):
+            if isinstance(node, ast.Attribute) and hasattr(obj, node.attr):
+                obj = getattr(obj, node.attr)
+                name += "." + node.attr
+                if any(obj is t for t in tables):
+                    return name
+            else:
+                break
+        return None
+
     for mod in (um, uh_, uv, ur, sw):
         src = open(mod.__file__, newline="").read().replace("\r\n", "\n")
         tree = ast.parse(src)
-        top = set()
-        for n in tree.body:
-            if isinstance(n, ast.Assign):
-                for t in n.targets:
-                    if isinstance(t, ast.Name):
-                        top.add(t.id)
-            elif isinstance(n, (ast.Import, ast.ImportFrom)):
-                for a in n.names:
-                    top.add((a.asname or a.name).split(".")[0])
         for fn in ast.walk(tree):
             if not isinstance(fn, (ast.FunctionDef, ast.AsyncFunctionDef)):
                 continue
             local = {a.arg for a in fn.args.args + fn.args.kwonlyargs} | ({fn.args.vararg.arg} if fn.args.vararg else set()) | ({fn.args.kwarg.arg} if fn.args.kwarg else set())
+            globs = set()
+            for n in ast.walk(fn):
+                if isinstance(n, ast.Global):
+                    globs |= set(n.names)
             for n in ast.walk(fn):
                 if isinstance(n, ast.Assign):
                     for t in n.targets:
                         for x in ast.walk(t):
-                            if isinstance(x, ast.Name) and isinstance(x.ctx, ast.Store):
+                            if isinstance(x, ast.Name) and isinstance(x.ctx, ast.Store) and x.id not in globs:
                                 local.add(x.id)
                 elif isinstance(n, (ast.For, ast.comprehension)):
                     for x in ast.walk(n.target):
@@ -1873,24 +1902,27 @@ def static_global_writes():
                             for x in ast.walk(it.optional_vars):
                                 if isinstance(x, ast.Name):
                                     local.add(x.id)
-            def root(e):
+
+            def rootname(e):
                 while isinstance(e, (ast.Subscript, ast.Attribute)):
                     e = e.value
                 return e.id if isinstance(e, ast.Name) else None
             for n in ast.walk(fn):
                 if isinstance(n, ast.Global):
-                    hits.append(f"{mod.__name__}.{fn.name}: global {','.join(n.names)}")
+                    for g_ in n.names:
+                        if hasattr(mod, g_) and any(getattr(mod, g_) is t for t in tables):
+                            hits.append(f"{mod.__name__}.{fn.name}: global {g_} (a shared table is rebound)")
                 if isinstance(n, (ast.Assign, ast.AugAssign, ast.Delete)):
                     tg = n.targets if isinstance(n, (ast.Assign, ast.Delete)) else [n.target]
                     for t in tg:
-                        if isinstance(t, (ast.Subscript, ast.Attribute)):
-                            r = root(t)
-                            if r and r in top and r not in local and r not in ("self",):
-                                hits.append(f"{mod.__name__}.{fn.name}:{n.lineno}: store into module-level {r}")
-                if isinstance(n, ast.Call) and isinstance(n.func, ast.Attribute) and n.func.attr in MUT:
-                    r = root(n.func.value)
-                    if r and r in top and r not in local:
-                        hits.append(f"{mod.__name__}.{fn.name}:{n.lineno}: {r}.{n.func.attr}(…)")
+                        if isinstance(t, (ast.Subscript, ast.Attribute)) and rootname(t) not in local:
+                            sh = is_shared(mod, t.value)
+                            if sh:
+                                hits.append(f"{mod.__name__}.{fn.name}:{n.lineno}: store into shared table {sh}")
+                if isinstance(n, ast.Call) and isinstance(n.func, ast.Attribute) and n.func.attr in MUT and rootname(n.func.value) not in local:
+                    sh = is_shared(mod, n.func.value)
+                    if sh:
+                        hits.append(f"{mod.__name__}.{fn.name}:{n.lineno}: {sh}.{n.func.attr}(…)")
                 if isinstance(n, ast.Call) and isinstance(n.func, ast.Name) and n.func.id == "print":
                     hits.append(f"{mod.__name__}.{fn.name}:{n.lineno}: print(…)")
     return hits
